@@ -183,15 +183,16 @@ CrashDiff(e) ==
 \* (and F17: whether a build fails on a step moved between plans depends on the schedule, so the
 \* restarted build and the reference may disagree about it)
 CrashEquiv(e) ==
-  IF e.info.double_exec # <<>>
-  \* only what that defect explains: the crash on the second completion (and the outcome that follows
-  \* from it), and the amended dependencies of the re-created step that were lost with the old row
-  THEN {IF \/ c[1] \in {"restart_raised", "restart_outcome_differs"} /\ e.info.second_completion
-           \/ c[1] = "active_edges_differ" /\ c[2][3] /\ c[2][2] \in SeqSet(e.info.double_exec)
-        THEN <<c[1], c[2], "F25-double-execution-in-restarted-build">> ELSE c : c \in CrashDiff(e)}
-  ELSE IF (RcClass(e.a.rc) = "failed" /\ StaleDefinerConflict(e.a)) \/ (RcClass(e.b.rc) = "failed" /\ StaleDefinerConflict(e.b))
-  THEN {<<c[1], c[2], "F17-step-moved-between-plans-crash-vs-reference">> : c \in CrashDiff(e)}
-  ELSE CrashDiff(e)
+  LET f17 == (RcClass(e.a.rc) = "failed" /\ StaleDefinerConflict(e.a)) \/ (RcClass(e.b.rc) = "failed" /\ StaleDefinerConflict(e.b))
+      \* only what F25 explains: the crash on the second completion (and the outcome that follows
+      \* from it), and the amended dependencies of the re-created step that were lost with the old row
+      f25(c) == /\ e.info.double_exec # <<>>
+                /\ \/ c[1] \in {"restart_raised", "restart_outcome_differs"} /\ e.info.second_completion
+                   \/ c[1] = "active_edges_differ" /\ c[2][3] /\ c[2][2] \in SeqSet(e.info.double_exec)
+  IN {IF Len(c) > 2 /\ c[3] # "" THEN c
+      ELSE IF f25(c) THEN <<c[1], c[2], "F25-double-execution-in-restarted-build">>
+      ELSE IF f17 THEN <<c[1], c[2], "F17-step-moved-between-plans-crash-vs-reference">>
+      ELSE c : c \in CrashDiff(e)}
 
 \* F17 seen through this relation: when a plan edit moves a step between plans, whether the build
 \* fails depends on the schedule (see StaleDefinerConflict), not on watching versus restarting
